@@ -1,5 +1,6 @@
 import Driver.Parse
 import Rio.Model.Pack
+import Rio.Model.Warehouse
 namespace Rio.Driver
 open Rio
 
@@ -87,6 +88,26 @@ def packEngine : List String → String
         let fm := if fmt = "zip" then PackFmt.zip else .tar
         showOutcomeId (packId Sha.sha384 fm ff es)
     | _, _ => "bad-op"
+  | _ => "bad-op"
+
+def schemeOfTok : String → Option Scheme
+  | "file" => some .file | "ca+file" => some .caFile | "http" => some .http | "ca+http" => some .caHttp
+  | "https" => some .https | "ca+https" => some .caHttps | "other" => some .other | "unparsable" => some .unparsable
+  | _ => none
+def condOfTok : String → Option WhCond
+  | "missingdir" => some .missingDir | "lacking" => some .lacking | "holding" => some .holding
+  | "servererror" => some .serverError | "refused" => some .refused | _ => none
+
+def pickEngine : List String → String
+  | [mono, ws] =>
+    let parsed := if ws = "-" then some [] else (ws.splitOn ";").mapM (fun t => match t.splitOn ":" with
+      | [s, c] => do pure (⟨← schemeOfTok s, ← condOfTok c⟩ : Wh)
+      | _ => none)
+    match parsed with
+    | some l => match pickReader (mono = "1") l 0 false with
+      | .opened i => s!"opened {i}"
+      | .err c => "err " ++ c.tok
+    | none => "bad-op"
   | _ => "bad-op"
 
 end Rio.Driver
